@@ -132,6 +132,10 @@ def run(ctx, res):
         getattr(icalendar, "use_" + provider)()
         try:
             for label, text in texts:
+                # every parse starts from an empty time-zone cache: the cache is process-wide state (C12), and a text whose
+                # event precedes its VTIMEZONE reads differently once an earlier parse has left the zone behind
+                fresh = getattr(icalendar, "use_" + provider)
+                fresh()
                 base, _, comps = T.impl_parse(text.encode("utf-8"), multiple=True)
                 if comps is None or not comps:
                     continue
@@ -161,6 +165,7 @@ def run(ctx, res):
                     vt = v.decode("utf-8-sig") if isinstance(v, bytes) else v
                     res.count((label, what, vt), nontrivial=(vt != text))
                     res.dist(what.split(" ")[0])
+                    fresh()
                     o, log, vc = T.impl_parse(v, multiple=True)
                     n_pairs += 1
                     ok = vc is not None and obs_with_offsets(vc) == base_obs and [T.impl_ser(c) for c in vc] == base_ser
